@@ -630,10 +630,15 @@ fn mask_build(cfg: &[u16]) -> Built {
         (K::Contend, 5),
         (K::RegLine, 6),
         (K::RawConnect, 2),
-        (K::NewUser, 3),
+        (K::NewUser, 6),
     ]);
     prof.oper_names.push(("op0".into(), "operpw0".into()));
     prof.reg_usernames.push("u1".into());
+    prof.max_conns = 9;
+    // newcomers whose user name contains '@', '!' or '*'
+    for n in ["nat", "nex", "nst", "nat", "nex", "nat"] {
+        prof.nicks.push(n.into());
+    }
     let mut setup = vec![];
     setup.push(("n0".to_string(), "JOIN #c0".to_string()));
     if s.chance(60) {
@@ -643,6 +648,10 @@ fn mask_build(cfg: &[u16]) -> Built {
         let who = 1 + s.pick(users - 1);
         let l = ["b", "b", "e", "I"][s.pick(4)];
         setup.push(("n0".to_string(), format!("MODE #c0 +{} {}", l, derive_mask(&src(who), &mut s))));
+    }
+    // host bans waiting for the first newcomers
+    if s.chance(25) {
+        setup.push(("n0".to_string(), format!("MODE #c0 +b {}", ["*!*@10.0.0.?", "*!*@10.0.0.*", "*!~*@10.*.0.?"][s.pick(3)])));
     }
     Built { cfg: c, prof, prelude_users: users, setup }
 }
